@@ -62,6 +62,21 @@ def gen_cases(tier):
             "cfgs": [cfg.describe()],
             "history": sweep_history(1 if thorough else 3, range(6) if thorough else (0, 1, 2)),
         }
+    # identifiers that look like the zero placeholder of the MAC field (>= 12 zero octets in the engine id / user name)
+    zero_ids = [
+        bytes.fromhex("80001f8802") + b"\x00" * 13 + b"\x01",  # RFC 3411 IPv6-format id of fe80::1-like addresses
+        bytes.fromhex("80001f8805") + b"\x00" * 12,
+        b"\x00" * 12,
+        bytes.fromhex("80001f8804") + b"\x00" * 11 + b"\x07",  # 11 zeros: not a placeholder look-alike
+    ]
+    for eid, auth, priv in itertools.product(zero_ids, (1, 2), (0, 1, 2)):
+        for user in ("user1", "\x00" * 12, "a" + "\x00" * 13):
+            cfg = Cfg("v3", auth=auth, priv=priv, engine_id=eid, user=user)
+            yield {
+                "class": "zero-run-identifiers",
+                "cfgs": [cfg.describe()],
+                "history": [["get", 0, "sys"], ["refresh", 0], ["reply", 0, "ok", 3], ["get_many", 0, "pair"], ["getbulk", 0, "sys", 5]],
+            }
     other = Cfg("v2c")
     for auth, priv in ((1, 0), (2, 0), (1, 1), (2, 2), (2, 1), (0, 0)):
         for kt in kts:
@@ -87,7 +102,40 @@ def gen_cases(tier):
         }
 
 
+def gen_public(tier):
+    """Public clients: plain scripts and one User object shared by sessions to agents with different engine ids."""
+    from . import c13
+
+    for case in c13.gen_public(tier):
+        cfg = Cfg.from_desc(case["cfg"])
+        if cfg.auth and ("order" in case or (case.get("clock") == 0 and case["script"] == c13.SCRIPTS[1])):
+            yield case
+
+
+def work_public(chunk):
+    from . import c13
+
+    res = common.Result()
+    for case in chunk:
+        probs, n = (c13.run_shared if "order" in case else c13.run_public)(case, CLAUSES)
+        res.count("cases")
+        res.count("datagrams", n)
+        res.count("api_calls", len(case["script"]) + 1)
+        res.distinct()
+        res.outcome("public-" + case["driver"] + ("-shared-user" if "order" in case else ""))
+        for c, t in probs:
+            if c == "mac":
+                res.violation("public/%s/%s: %s" % (case["driver"], c, histcheck.classify(t)), t, case)
+    return res
+
+
 def replay(case):
+    if "driver" in case:
+        from . import c13
+
+        common.prepare_stage()
+        probs, n = (c13.run_shared if "order" in case else c13.run_public)(case, CLAUSES)
+        return {"problems": [p for p in probs if p[0] == "mac"], "requests": n}
     return histcheck.replay(case, CLAUSES)
 
 
@@ -97,9 +145,10 @@ def run(tier):
     rec.rule = (
         "per configuration (engine-id length x user-name length x digest x cipher x key type): one long history sweeping the request "
         "size octet by octet across 127/128 and 255/256 at every nesting level and up to the buffer limit, for each boots/time width "
-        "class; every depth<=2 prefix on the shared pool x every request type; keys installed via discovery+set_keys. "
+        "class; every depth<=2 prefix on the shared pool x every request type; keys installed via discovery+set_keys; sync and async public clients incl. one User object shared by sessions to agents with different engine ids. "
         "evaluations = datagrams whose MAC was recomputed; distinct cases = histories."
     )
     rec.assume("HMAC and key derivation by CPython hashlib/hmac; key localized to the engine id found in the message")
     common.run_cases(rec, work, list(gen_cases(tier)), chunk=4)
+    common.run_cases(rec, work_public, list(gen_public(tier)), chunk=6)
     return histcheck.finish(rec)
